@@ -39,11 +39,13 @@ import (
 )
 
 type inlCallee struct {
-	fn   *types.Func
-	decl *ast.FuncDecl
-	pk   *packages.Package
-	file *ast.File
-	pure bool // computes only (eligible for hoisting out of an operand position)
+	obj    types.Object // the *types.Func, or the local variable a function literal is bound to
+	sig    *types.Signature
+	decl   *ast.FuncDecl // for a bound function literal: a synthetic declaration (Type and Body of the literal)
+	pk     *packages.Package
+	file   *ast.File
+	pure   bool      // computes only (eligible for hoisting out of an operand position)
+	defEnd token.Pos // bound function literal: end of the defining assignment
 }
 
 var inlineCounter int
@@ -100,9 +102,9 @@ type posEdit struct {
 	text     string
 }
 
-func (ns *normState) unknownCallees() map[*types.Func]*inlCallee {
+func (ns *normState) unknownCallees() map[types.Object]*inlCallee {
 	cset := canonFuncSet()
-	out := map[*types.Func]*inlCallee{}
+	out := map[types.Object]*inlCallee{}
 	// names of methods of module interfaces (possible dynamic dispatch)
 	ifaceMeth := map[string]bool{}
 	for _, pk := range ns.pkgs {
@@ -144,11 +146,76 @@ func (ns *normState) unknownCallees() map[*types.Func]*inlCallee {
 				if sig.Recv() != nil && ifaceMeth[fn.Name()] {
 					continue
 				}
-				c := &inlCallee{fn: fn, decl: fd, pk: pk, file: file}
+				c := &inlCallee{obj: fn, sig: sig, decl: fd, pk: pk, file: file}
 				if !ns.bodyInlinable(c) {
 					continue
 				}
-				out[fn] = c
+				out[types.Object(fn)] = c
+			}
+		}
+	}
+	// function literals bound once to a local variable that the canonical tree does not know
+	// (respond := func(…) {…}) are helpers too
+	canonCl := map[string]bool{}
+	for _, cc := range canonClosures {
+		canonCl[cc[0]+"|"+cc[1]+"|"+cc[2]] = true
+	}
+	for short, pk := range ns.pkgs {
+		for _, file := range pk.Syntax {
+			for _, d := range file.Decls {
+				fd, ok := d.(*ast.FuncDecl)
+				if !ok || fd.Body == nil {
+					continue
+				}
+				owner := fd.Name.Name
+				if fd.Recv != nil && len(fd.Recv.List) == 1 {
+					owner = strings.TrimPrefix(ns.srcText(fd.Recv.List[0].Type.Pos(), fd.Recv.List[0].Type.End()), "*") + "." + owner
+				}
+				ast.Inspect(fd.Body, func(n ast.Node) bool {
+					as, ok := n.(*ast.AssignStmt)
+					if !ok || as.Tok != token.DEFINE || len(as.Lhs) != 1 || len(as.Rhs) != 1 {
+						return true
+					}
+					lit, ok := as.Rhs[0].(*ast.FuncLit)
+					id, ok2 := as.Lhs[0].(*ast.Ident)
+					if !ok || !ok2 || id.Name == "_" {
+						return true
+					}
+					if canonCl[short+"|"+owner+"|"+id.Name] {
+						return true
+					}
+					v, _ := pk.TypesInfo.Defs[id].(*types.Var)
+					sig, _ := pk.TypesInfo.TypeOf(lit).(*types.Signature)
+					if v == nil || sig == nil {
+						return true
+					}
+					// assigned once
+					reassigned := false
+					ast.Inspect(fd.Body, func(m ast.Node) bool {
+						switch x := m.(type) {
+						case *ast.AssignStmt:
+							for _, l := range x.Lhs {
+								if li, isId := l.(*ast.Ident); isId && x != as && pk.TypesInfo.Uses[li] == types.Object(v) {
+									reassigned = true
+								}
+							}
+						case *ast.UnaryExpr:
+							if li, isId := x.X.(*ast.Ident); isId && x.Op == token.AND && pk.TypesInfo.Uses[li] == types.Object(v) {
+								reassigned = true
+							}
+						}
+						return true
+					})
+					if reassigned {
+						return true
+					}
+					c := &inlCallee{obj: v, sig: sig, decl: &ast.FuncDecl{Name: id, Type: lit.Type, Body: lit.Body}, pk: pk, file: file, defEnd: as.End()}
+					if !ns.bodyInlinable(c) {
+						return true
+					}
+					out[types.Object(v)] = c
+					return true
+				})
 			}
 		}
 	}
@@ -169,10 +236,8 @@ func (ns *normState) unknownCallees() map[*types.Func]*inlCallee {
 			})
 		}
 		for id, obj := range pk.TypesInfo.Uses {
-			if fn, ok := obj.(*types.Func); ok {
-				if _, isC := out[fn]; isC && !calledAt[id] {
-					delete(out, fn)
-				}
+			if _, isC := out[obj]; isC && !calledAt[id] {
+				delete(out, obj)
 			}
 		}
 	}
@@ -215,7 +280,7 @@ func (ns *normState) bodyInlinable(c *inlCallee) bool {
 							ok = false
 						}
 					}
-					if info.Uses[id] == types.Object(c.fn) {
+					if info.Uses[id] == c.obj {
 						ok = false
 					}
 					if _, isB := info.Uses[id].(*types.Builtin); !isB {
@@ -224,7 +289,7 @@ func (ns *normState) bodyInlinable(c *inlCallee) bool {
 						}
 					}
 				} else if sel, isSel := x.Fun.(*ast.SelectorExpr); isSel {
-					if info.Uses[sel.Sel] == types.Object(c.fn) {
+					if info.Uses[sel.Sel] == c.obj {
 						ok = false
 					}
 					if tv, has := info.Types[x.Fun]; !has || !tv.IsType() {
@@ -400,7 +465,7 @@ func (ns *normState) buildInline(s *inlSite, mode string) (pre string, block str
 	inlineCounter++
 	suffix := fmt.Sprintf("_i%d", inlineCounter)
 	info := c.pk.TypesInfo
-	sig := c.fn.Type().(*types.Signature)
+	sig := c.sig
 	var b strings.Builder
 	b.WriteString("{\n")
 
@@ -720,7 +785,7 @@ func simpleOperand(e ast.Expr) bool {
 // findTarget looks for an inlinable call inside expression e such that everything
 // evaluated before it is simple. leftmostOnly restricts the search to the left spine
 // (conditions). It returns the call or nil.
-func (ns *normState) findTarget(pk *packages.Package, e ast.Expr, callees map[*types.Func]*inlCallee, top bool) *ast.CallExpr {
+func (ns *normState) findTarget(pk *packages.Package, e ast.Expr, callees map[types.Object]*inlCallee, top bool) *ast.CallExpr {
 	switch x := e.(type) {
 	case *ast.ParenExpr:
 		return ns.findTarget(pk, x.X, callees, false)
@@ -781,7 +846,7 @@ func (ns *normState) findTarget(pk *packages.Package, e ast.Expr, callees map[*t
 	return nil
 }
 
-func (ns *normState) calleeOf(pk *packages.Package, ce *ast.CallExpr, callees map[*types.Func]*inlCallee) *inlCallee {
+func (ns *normState) calleeOf(pk *packages.Package, ce *ast.CallExpr, callees map[types.Object]*inlCallee) *inlCallee {
 	var id *ast.Ident
 	switch f := ce.Fun.(type) {
 	case *ast.Ident:
@@ -791,11 +856,11 @@ func (ns *normState) calleeOf(pk *packages.Package, ce *ast.CallExpr, callees ma
 	default:
 		return nil
 	}
-	fn, _ := pk.TypesInfo.Uses[id].(*types.Func)
-	if fn == nil {
+	obj := pk.TypesInfo.Uses[id]
+	if obj == nil {
 		return nil
 	}
-	c := callees[fn]
+	c := callees[obj]
 	if c == nil || c.decl.Type.Results == nil && false {
 		return c
 	}
@@ -803,7 +868,7 @@ func (ns *normState) calleeOf(pk *packages.Package, ce *ast.CallExpr, callees ma
 }
 
 func numResults(c *inlCallee) int {
-	return c.fn.Type().(*types.Signature).Results().Len()
+	return c.sig.Results().Len()
 }
 
 func (ns *normState) planInlines() (editSet, map[string]bool) {
@@ -871,7 +936,7 @@ func stmtLists(n ast.Node, f func(list []ast.Stmt)) {
 	})
 }
 
-func (ns *normState) inlineInBlock(pk *packages.Package, file *ast.File, body *ast.BlockStmt, callees map[*types.Func]*inlCallee, es editSet, inlined map[string]bool, imports map[*ast.File]map[string]string) {
+func (ns *normState) inlineInBlock(pk *packages.Package, file *ast.File, body *ast.BlockStmt, callees map[types.Object]*inlCallee, es editSet, inlined map[string]bool, imports map[*ast.File]map[string]string) {
 	done := map[ast.Stmt]bool{}
 	covered := func(s ast.Stmt) bool {
 		for d := range done {
@@ -884,17 +949,23 @@ func (ns *normState) inlineInBlock(pk *packages.Package, file *ast.File, body *a
 		}
 		return false
 	}
+	keepUsed := ns.keepUsed
 	record := func(s *inlSite, st ast.Stmt, text string, need map[string]string) {
 		if st != nil {
 			es.add(ns.fset, st.Pos(), st.End(), text)
 			done[st] = true
 		}
-		sig := s.callee.fn.Type().(*types.Signature)
-		key := pkgShort[s.callee.pk.PkgPath] + "|" + recvStr(sig) + "|" + s.callee.fn.Name()
+		sig := s.callee.sig
+		key := pkgShort[s.callee.pk.PkgPath] + "|" + recvStr(sig) + "|" + s.callee.obj.Name()
 		if !inlined[key] {
-			ns.notes = append(ns.notes, fmt.Sprintf("calls of the private helper %s.%s%s (not part of the canonical tree) are inlined into their callers", pkgShort[s.callee.pk.PkgPath], recvPrefix(recvStr(sig)), s.callee.fn.Name()))
+			ns.notes = append(ns.notes, fmt.Sprintf("calls of the private helper %s.%s%s (not part of the canonical tree) are inlined into their callers", pkgShort[s.callee.pk.PkgPath], recvPrefix(recvStr(sig)), s.callee.obj.Name()))
 		}
 		inlined[key] = true
+		if s.callee.defEnd.IsValid() && !keepUsed[s.callee.obj] {
+			// the variable may end up without uses
+			keepUsed[s.callee.obj] = true
+			es.add(ns.fset, s.callee.defEnd, s.callee.defEnd, "\n_ = "+s.callee.obj.Name())
+		}
 		if len(need) > 0 {
 			if imports[file] == nil {
 				imports[file] = map[string]string{}
@@ -1045,7 +1116,7 @@ func (ns *normState) inlineInBlock(pk *packages.Package, file *ast.File, body *a
 }
 
 // tryHoist replaces a nested operand call by a temporary computed before the statement.
-func (ns *normState) tryHoist(pk *packages.Package, file *ast.File, st ast.Stmt, e ast.Expr, callees map[*types.Func]*inlCallee, record func(*inlSite, ast.Stmt, string, map[string]string)) bool {
+func (ns *normState) tryHoist(pk *packages.Package, file *ast.File, st ast.Stmt, e ast.Expr, callees map[types.Object]*inlCallee, record func(*inlSite, ast.Stmt, string, map[string]string)) bool {
 	t := ns.findTarget(pk, e, callees, false)
 	if t == nil {
 		return false
@@ -1074,7 +1145,7 @@ func (ns *normState) tryHoist(pk *packages.Package, file *ast.File, st ast.Stmt,
 	return true
 }
 
-func (ns *normState) tryIf(pk *packages.Package, file *ast.File, x *ast.IfStmt, callees map[*types.Func]*inlCallee, record func(*inlSite, ast.Stmt, string, map[string]string)) {
+func (ns *normState) tryIf(pk *packages.Package, file *ast.File, x *ast.IfStmt, callees map[types.Object]*inlCallee, record func(*inlSite, ast.Stmt, string, map[string]string)) {
 	rest := func(condText string) string {
 		t := "if " + condText + " " + ns.srcText(x.Body.Pos(), x.Body.End())
 		if x.Else != nil {
@@ -1147,7 +1218,7 @@ func (ns *normState) tryIf(pk *packages.Package, file *ast.File, x *ast.IfStmt, 
 		}
 		if ce, ok := cond.(*ast.CallExpr); ok {
 			if c := ns.calleeOf(pk, ce, callees); c != nil && numResults(c) == 1 {
-				if bt, isB := c.fn.Type().(*types.Signature).Results().At(0).Type().Underlying().(*types.Basic); isB && bt.Kind() == types.Bool {
+				if bt, isB := c.sig.Results().At(0).Type().Underlying().(*types.Basic); isB && bt.Kind() == types.Bool {
 					s := &inlSite{ce, c, pk, file}
 					need, ok := ns.freeNamesOK(s)
 					if !ok {
@@ -1276,7 +1347,7 @@ func plainBefore(e ast.Expr, t *ast.CallExpr) bool {
 
 // tryAssignCheck handles  x, err := f(a…)  followed by  if err != nil { T }  (or a boolean flag):
 // T must end the function (return / panic) and contain no break/continue/goto; the if has no else.
-func (ns *normState) tryAssignCheck(pk *packages.Package, file *ast.File, st, next ast.Stmt, callees map[*types.Func]*inlCallee, emit func(*inlSite, string, map[string]string)) bool {
+func (ns *normState) tryAssignCheck(pk *packages.Package, file *ast.File, st, next ast.Stmt, callees map[types.Object]*inlCallee, emit func(*inlSite, string, map[string]string)) bool {
 	as, ok := st.(*ast.AssignStmt)
 	if !ok || len(as.Rhs) != 1 || (as.Tok != token.DEFINE && as.Tok != token.ASSIGN) {
 		return false
@@ -1392,7 +1463,7 @@ func (ns *normState) tryAssignCheck(pk *packages.Package, file *ast.File, st, ne
 	}
 	// declarations for names this statement introduces
 	var b strings.Builder
-	sig := c.fn.Type().(*types.Signature)
+	sig := c.sig
 	_ = sig
 	var resTypes []string
 	if c.decl.Type.Results != nil {
